@@ -36,6 +36,9 @@ def main():
         meta = json.load(open(mp))
         if not meta.get('confirmed'):
             continue
+        if meta.get('out_of_domain'):
+            print('%-6s not expected to be caught: %s' % (sd, meta['out_of_domain']))
+            continue
         prop = meta['property']
         want = meta.get('caught_by') or [prop]
         checks = [prop] if prop in want else want[:1]
